@@ -10,8 +10,9 @@ from ..core import asthelp as H
 from ..core.interp import Interp, assume
 from ..core.progdb import AnalysisError, REPO
 from ..core.values import Frame, Obj, PyTuple, to_term
-from ..specs.merge import check_term
+from ..specs.merge import check_term, _uninterpreted
 from ..specs.endcoherence import check_end_coherence
+from .c11 import check_rank_association
 
 EXPLANATION = (
     "Symbolic evaluation of the JSON back end (trace_parser._parse_trace_dataframe_json, round_down_time_stamps, _compress_df, "
@@ -33,12 +34,14 @@ def run(db, chk) -> None:
     _shift(db, chk)
     check_end_coherence(db, chk, "C01.R5-end-coherence")
     from .c11 import check_reencoding
+    check_rank_association(db, chk, "C01.R8-rank-file-association")   # a rank's frame and metadata come from THAT rank's file
+    chk.floor("C01.R8-rank-file-association", 4)
     check_reencoding(db, chk, "C01.R6-re-encoding")     # after loading a set of ranks every rank's rows decode to the file's names
     _yaml(db, chk)
     _load(db, chk)
 
 
-def _parser(db, chk):
+def _parser(db, chk, enc_rule="C01.R6-encode-agreement", full=True):
     m = db.mod(TP)
     ref = f"{TP}:_parse_trace_dataframe_json"
     fn = m.func("_parse_trace_dataframe_json")
@@ -81,7 +84,7 @@ def _parser(db, chk):
         t = r.ret.items[2]
         seen_tab.setdefault(t.name.split("#")[0] if isinstance(t, Obj) else repr(t), 0)
     # ---- R1 row set
-    for rows, n in seen_rows.items():
+    for rows, n in (seen_rows.items() if full else ()):
         conj = set(rows[1]) if rows[0] == "and" else {rows}
         nn = [c for c in conj if c[0] == "notnull"]
         dur_terms = [c[1] for c in nn if c[1] != T.col(B, "cat")]
@@ -102,22 +105,29 @@ def _parser(db, chk):
                found=T.show(rows)[:400], accepted="notnull(dur) & notnull(cat) & ~(cat == 'Trace')",
                why="a wider dropna subset loses complete events without args; a narrower one lets metadata/flow/instant entries through; any third operation loses or duplicates rows")
     # ---- R2 position identity
-    for it, n in seen_idx.items():
+    for it, n in (seen_idx.items() if full else ()):
         chk.ob("C01.R2-position-identity", f"id column ({n} paths) = position of the entry in the file's event list", it == ("index", B), where, found=T.show(it)[:160], accepted="index(frame built from traceEvents)",
                why="every consumer that addresses raw_events[index] (critical-path overlay) would mark another event")
     # ---- R6 encode / decode agreement
     MAP = T.P("LOCAL_ID_MAP")
     for (c, n_), n in seen_cat.items():
         ok = c in (("getitem", MAP, T.col(B, "cat")), ("mapf", "<lambda", ("getitem", MAP, T.col(B, "cat")))) and n_ in (("getitem", MAP, T.col(B, "name")),)
-        chk.ob("C01.R6-encode-agreement", f"cat and name ({n} paths) are encoded through the id map of the local symbol table", ok, where, found=[T.show(c)[:120], T.show(n_)[:120]],
+        if not ok and (_uninterpreted(c) or _uninterpreted(n_)):
+            ok = None      # encoded through a library function the evaluator has no model for (e.g. pd.factorize): not understood
+        chk.ob(enc_rule, f"cat and name ({n} paths) are encoded through the id map of the local symbol table", ok, where, found=[T.show(c)[:120], T.show(n_)[:120]],
                accepted=["id_map[cat]", "id_map[name]"])
     adds = {a for k, a in tables if k == "add"}
     both = adds and all(T.find(a, lambda s: s[0] == "unique" and s[1] == T.col(B, "cat")) and T.find(a, lambda s: s[0] == "unique" and s[1] == T.col(B, "name")) for a in adds)
-    chk.ob("C01.R6-encode-agreement", "the symbols added to that table cover the distinct values of both cat and name", bool(both), where, found=[T.show(a)[:200] for a in list(adds)[:2]],
+    if not both and any(_uninterpreted(a) for a in adds):
+        both = None
+    chk.ob(enc_rule, "the symbols added to that table cover the distinct values of both cat and name", both if both is None else bool(both), where, found=[T.show(a)[:200] for a in list(adds)[:2]],
            accepted="set(cat.unique()) | set(name.unique())", why="a symbol missing from the table makes the encoding lambda raise KeyError or mis-decode")
-    chk.ob("C01.R6-encode-agreement", "the table returned is the table the frame was encoded with", list(seen_tab) == ["TraceSymbolTable"], where,
+    chk.ob(enc_rule, "the table returned is the table the frame was encoded with", list(seen_tab) == ["TraceSymbolTable"], where,
            found=list(seen_tab), accepted="the local TraceSymbolTable()")
     # ---- stream normalisation
+    chk.floor(enc_rule, 3)
+    if not full:
+        return
     for stt, n in seen_stream.items():
         if stt == T.col(B, "stream"):
             continue   # path on which the stream column is absent (error branch) or untouched
@@ -128,7 +138,6 @@ def _parser(db, chk):
         chk.ob("C01.R7-stream-sentinel", f"stream ({n} paths) = int(stream), or the sentinel -1 when it is not a number", okst, where, found=[T.show(v)[:80] for v in vals] or T.show(stt)[:160],
                accepted=["int(stream)", "-1"], why="consumers test stream against -1 to tell host from device rows")
     chk.floor("C01.R1-row-set", 2)
-    chk.floor("C01.R6-encode-agreement", 3)
 
 
 def _rounding(db, chk):
